@@ -21,7 +21,7 @@ CHECKS = {
     "C17": (
         "exploration",
         "deterministic simulation: seeded operation histories against a textbook-LRU reference model, real checkpoint files, clean restarts",
-        "Seeded search over operation histories (touch/remove/evict/checkpoint/reload/restart) on the real LruManager with real files in a per-run sandbox; after every operation length, membership and full recency order are compared with a textbook LRU, and at the end the tracker must still hold its full capacity. Sampling, not proof; short histories over capacity<=3 are hit many times each. The first run indices of every batch enumerate ALL histories up to length 3 (quick) / 5 (thorough) over a 17-symbol alphabet for capacities 1-3 and 4 keys, independent of the seed. run_cycle limits reach from one entry to 2^32 average-sized entries and just above, powers of two and u64::MAX.",
+        "Seeded search over operation histories (touch/remove/evict/checkpoint/reload/restart) on the real LruManager with real files in a per-run sandbox; after every operation length, membership and full recency order are compared with a textbook LRU, and at the end the tracker must still hold its full capacity. Sampling, not proof; short histories over capacity<=3 are hit many times each. The first run indices of every batch enumerate ALL histories up to length 3 (quick) / 5 (thorough) over a 17-symbol alphabet for capacities 1-3 and 4 keys, independent of the seed. run_cycle limits reach from one entry to 2^32 average-sized entries and just above, powers of two and u64::MAX. One seeded run in 400 has a table of 1000 - 1 000 000 slots; one run in five fills the table with active entries mid-history; cold restarts.",
         "Trusted: the reference LRU (40 lines), tmpfs semantics for whole-file write/read, the libc interposition layer (clock/entropy). Crash during checkpoint is C06, not here.",
         "3/C17",
     ),
@@ -30,14 +30,14 @@ CHECKS = {
 CHECKS["C10"] = (
     "exploration",
     "deterministic simulation: seeded cache histories under a virtual clock (interposed clock_gettime + paused tokio) against a map-with-expiry model; drop-and-recreate for the disk cache",
-    "Seeded search over put/put_with_ttl/get/contains/remove/clear/size/stats/advance(/recreate) histories on the real MemoryCache (all five policies, limits from 1 entry / 1 byte) and DiskCache (sub-directories, background tasks) with every clock read virtual: each read is judged 'latest value or nothing' against the model, bounds are checked after every operation, reported size/usage against a probe of every key, and TTL behaviour across instances at generated instants before/after expiry. Sampling, not proof. size()/stats() are judged mid-run between what is certainly retrievable and what may still be present; TTLs include Duration::MAX and 584 years, max_entries includes usize::MAX. Keys are spelled k<i> or, in one run in three, with dots (obj.<i>, versions-1.15.<i>, k<i> / k<i>.idx: equal up to the last dot, or one a prefix of the other).",
+    "Seeded search over put/put_with_ttl/get/contains/remove/clear/size/stats/advance(/recreate) histories on the real MemoryCache (all five policies, limits from 1 entry / 1 byte) and DiskCache (sub-directories, background tasks) with every clock read virtual: each read is judged 'latest value or nothing' against the model, bounds are checked after every operation, reported size/usage against a probe of every key, and TTL behaviour across instances at generated instants before/after expiry. Sampling, not proof. size()/stats() are judged mid-run between what is certainly retrievable and what may still be present; TTLs include Duration::MAX and 584 years, max_entries includes usize::MAX. Keys are spelled k<i> or, in one run in three, with dots (obj.<i>, versions-1.15.<i>, k<i> / k<i>.idx: equal up to the last dot, or one a prefix of the other). max_entries 1-23 / 1000 / usize::MAX, default TTL none / 1 h / 50 ms / 0, one disk run in 150 with a 16 MiB value, one run in eight with identical values under different keys.",
     "Trusted: the model (relaxation: 'nothing' is accepted whenever an eviction was possible since the put), libc interposition of the clock, tokio's paused clock, tmpfs. Reads within 1us of an expiry instant are not judged.",
     "3/C10",
 )
 CHECKS["C05"] = (
     "exploration",
     "deterministic simulation: seeded long bucket-targeted histories with save + reload into fresh instances against BTreeMap reference models",
-    "Seeded search over index histories (single operations and bursts of up to 1400 entries aimed at one bucket so the bounded update section fills) and residency histories (incl. the >10000-key batch delete path), each compared operation by operation with a BTreeMap model: lookups of touched and never-inserted keys, counts, enumeration, truthfulness of returned booleans, and the same after save + load into a fresh manager on the same directory. The residency database is also driven through its ResidencyContainer wrapper, with the all-zero 16-byte key and delete batches at 9999/10000/10001 keys.",
+    "Seeded search over index histories (single operations and bursts of up to 1400 entries aimed at one bucket so the bounded update section fills) and residency histories (incl. the >10000-key batch delete path), each compared operation by operation with a BTreeMap model: lookups of touched and never-inserted keys, counts, enumeration, truthfulness of returned booleans, and the same after save + load into a fresh manager on the same directory. The residency database is also driven through its ResidencyContainer wrapper, with the all-zero 16-byte key and delete batches at 9999/10000/10001 keys. Burst keys in ascending or pseudo-random key order; status updates in bursts; delete batches made of existing keys.",
     "Trusted: the BTreeMap models, tmpfs. Zero-prefix keys excluded (format's empty marker). Crash during save is C06.",
     "3/C05",
 )
@@ -45,7 +45,7 @@ CHECKS["C05"] = (
 CHECKS["C04"] = (
     "exploration",
     "deterministic simulation: seeded write/read/remove/flush/reopen histories over the real store front ends against a map model, clean restarts on the same directory",
-    "Seeded search over histories of writes (size patterns: large-then-small, shrinking, growing, equal, doubling; payload classes incl. BLTE look-alikes and nested BLTE files), reads of any earlier key, queries, removes, flushes and reopen on DynamicContainer, Installation and bare ArchiveManager (None/ZLib/LZ4); after every operation the newest and one older object are read back and compared byte for byte with the model, all objects at the end and after each reopen. The key argument handed to DynamicContainer::write is varied (encoding key / content key / unrelated bytes); objects are always read back by encoding key, the Installation's index must list every written object, reads use exact-size buffers for every third object. Payloads include the stored image of an object written earlier in the same run (its mode-N / ZLib BLTE file, local header + image, its encoding key, its content key).",
+    "Seeded search over histories of writes (size patterns: large-then-small, shrinking, growing, equal, doubling; payload classes incl. BLTE look-alikes and nested BLTE files), reads of any earlier key, queries, removes, flushes and reopen on DynamicContainer, Installation and bare ArchiveManager (None/ZLib/LZ4); after every operation the newest and one older object are read back and compared byte for byte with the model, all objects at the end and after each reopen. The key argument handed to DynamicContainer::write is varied (encoding key / content key / unrelated bytes); objects are always read back by encoding key, the Installation's index must list every written object, reads use exact-size buffers for every third object. Payloads include the stored image of an object written earlier in the same run (its mode-N / ZLib BLTE file, local header + image, its encoding key, its content key). One container run in 100 writes 1261-3700 small objects into ONE index bucket (then flush, more writes, reopen); Installation objects are also read through the location their index entry gives (bypassing its read cache).",
     "Trusted: the map model; the encoding key rule MD5(BLTE(single_chunk)) computed through cascette-formats; tmpfs + mmap semantics. Sizes up to 256 KiB (the defect class is about the mapping not growing at all, not about 64 MiB). Crash is C06.",
     "3/C04",
 )
@@ -53,7 +53,7 @@ CHECKS["C04"] = (
 CHECKS["C06"] = (
     "fault_enumeration",
     "deterministic simulation with crash-point enumeration: seeded histories, the save's real syscalls recorded at the libc boundary, every crash index x tear variant materialised and recovered by the real loader",
-    "For each generated save (index buckets via save_all/flush_*, residency DB, LRU checkpoint with/without bump and shutdown, disk-cache put) the mutating syscalls the code really issues are recorded by libc interposition; every crash index, every chosen prefix of an in-flight write (process death) and every tear variant of un-synced content (power loss: nothing/prefixes/zeros/stale) is materialised as a directory and recovered by a fresh real loader, which must succeed, show exactly S_old or S_new per object, and stay usable. Complete over crash points within each generated instance; the instances are sampled. One history in three has the object loaded back from disk before it is mutated and saved under the recorder; residency and LRU also start from 'nothing ever saved'; LRU tables up to 64 slots and residency buckets beyond one page give multi-page files; the recovered image is also checked through scan_keys()/size() and by a further flush whose whole content is compared. LRU: in one run in four the recovering manager and its successor have another capacity than the crashed one.",
+    "For each generated save (index buckets via save_all/flush_*, residency DB, LRU checkpoint with/without bump and shutdown, disk-cache put) the mutating syscalls the code really issues are recorded by libc interposition; every crash index, every chosen prefix of an in-flight write (process death) and every tear variant of un-synced content (power loss: nothing/prefixes/zeros/stale) is materialised as a directory and recovered by a fresh real loader, which must succeed, show exactly S_old or S_new per object, and stay usable. Complete over crash points within each generated instance; the instances are sampled. One history in three has the object loaded back from disk before it is mutated and saved under the recorder; residency and LRU also start from 'nothing ever saved'; LRU tables up to 64 slots and residency buckets beyond one page give multi-page files; the recovered image is also checked through scan_keys()/size() and by a further flush whose whole content is compared. LRU: in one run in four the recovering manager and its successor have another capacity than the crashed one. Histories include tombstone bursts, status updates, residency spans and 3700-entry buckets (sorted section past 64 KiB).",
     "Trusted: the persistence models P and D (DESIGN.md 2.5) - D is a model of a journalling file system, not an observation; the recorder (checked against strace by the seam self-test); S_old for the index is what the real loader sees before the save.",
     "3/C06",
 )
@@ -61,7 +61,7 @@ CHECKS["C06"] = (
 CHECKS["C07"] = (
     "fault_enumeration",
     "deterministic simulation with corruption enumeration: real writers -> simulated storage/transport that flips, substitutes, truncates, extends -> real readers; seeded put/corrupt/get sequences on the validating caches",
-    "Per generated artifact instance every single-bit flip (plus byte substitutions, every truncation length, extensions) inside the region its checksum is defined over is applied and the real reader must refuse; for the validating caches seeded sequences of validated put / corrupt or delete the backing file / validated get must never return bytes whose MD5 differs from the requested key and must not serve an entry after corruption was detected. Exhaustive over bit positions for artifacts <= 4 KiB; instances are sampled. Whole .idx files (pending update entries) and residency files written by the real save paths are corrupted and read back by the real loaders (IndexManager::load_all, ResidencyDb::load), not only by the stand-alone validators; the checksum bytes themselves are part of the protected region. Whole .idx and residency files span one to four pages of pending entries.",
+    "Per generated artifact instance every single-bit flip (plus byte substitutions, every truncation length, extensions) inside the region its checksum is defined over is applied and the real reader must refuse; for the validating caches seeded sequences of validated put / corrupt or delete the backing file / validated get must never return bytes whose MD5 differs from the requested key and must not serve an entry after corruption was detected. Exhaustive over bit positions for artifacts <= 4 KiB; instances are sampled. Whole .idx files (pending update entries) and residency files written by the real save paths are corrupted and read back by the real loaders (IndexManager::load_all, ResidencyDb::load), not only by the stand-alone validators; the checksum bytes themselves are part of the protected region. Whole .idx and residency files span one to four pages of pending entries. Also files planted at a key's backing path, empty and identical values, encoding tables of several pages per table, V1 MIME framed the way the official service frames it.",
     "Trusted: the protected region per artifact is taken from the checksum's definition in the code's documentation; 'accepted with logically equal content' is not judged. Single corruptions only.",
     "3/C07",
 )
@@ -69,7 +69,7 @@ CHECKS["C07"] = (
 CHECKS["C14"] = (
     "fault_enumeration",
     "deterministic simulation under a virtual clock: scripted outcome sequences x policy grid through the real RetryPolicy::execute, every delay measured exactly on tokio's paused clock, jitter from the seeded entropy seam",
-    "Every policy of the property's grid (3000 policies, also built through from_env) is executed against all outcome sequences up to length 3 and a seeded sample of longer ones; number of invocations, stop-at-first-success/definitive-error, returned result, exact delay per attempt (hint or clamped exponential step, +<=30% jitter), absence of panics and completion within a virtual-time budget are checked per execution. Enumerates the policy grid completely per cycle; longer sequences are sampled. Run i of a batch takes policy i mod 3000 of the grid; one run in eight builds its policy from raw environment strings (huge, negative, fractional, garbage, padded, unset) through an interposed getenv; hints include u64::MAX seconds; whether an error is retryable is asked of the error itself (should_retry). One run in six additionally drives the real CdnClient::download_with_retry over the simulated HTTP transport (per-request behaviour queues: 5xx, 429 with/without/unparsable Retry-After, 4xx, refused, reset, time-out, broken body): number of requests, waits between a request's failure and the next request's start, stop conditions and the returned error are judged by the same rules. Retry budgets of 255-70000 (through from_env) run a few sequences to the end of the budget with an exact expected count.",
+    "Every policy of the property's grid (3000 policies, also built through from_env) is executed against all outcome sequences up to length 3 and a seeded sample of longer ones; number of invocations, stop-at-first-success/definitive-error, returned result, exact delay per attempt (hint or clamped exponential step, +<=30% jitter), absence of panics and completion within a virtual-time budget are checked per execution. Enumerates the policy grid completely per cycle; longer sequences are sampled. Run i of a batch takes policy i mod 3000 of the grid; one run in eight builds its policy from raw environment strings (huge, negative, fractional, garbage, padded, unset) through an interposed getenv; hints include u64::MAX seconds; whether an error is retryable is asked of the error itself (should_retry). One run in six additionally drives the real CdnClient::download_with_retry over the simulated HTTP transport (per-request behaviour queues: 5xx, 429 with/without/unparsable Retry-After, 4xx, refused, reset, time-out, broken body): number of requests, waits between a request's failure and the next request's start, stop conditions and the returned error are judged by the same rules. Retry budgets of 255-70000 (through from_env) run a few sequences to the end of the budget with an exact expected count. Attempts that take up to an hour of virtual time, back-offs in nanoseconds, budgets at the edges of 32 bits, Retry-After in unparsable forms.",
     "Trusted: tokio's paused clock (1 ms timer granularity allowed on the upper side), the classification table in the property text. For non-finite/negative multipliers only bounds are judged. Two readings of the clamp and of whether hinted retries advance the exponent are both accepted.",
     "3/C14",
 )
@@ -77,7 +77,7 @@ CHECKS["C14"] = (
 CHECKS["C12"] = (
     "exploration",
     "deterministic simulation: seeded multi-layer histories with injected corruption/deletion of the disk layers' files under a virtual clock, per-key 'latest value / what each layer may hold' model, virtual-time and real-time liveness watchdogs",
-    "Seeded search over histories of the full multi-layer API on 2-3 layers with a tiny first layer (eviction in almost every run), every promotion strategy, validation hooks on/off, interleaved with disk faults and clock advances; each read is judged against the latest put (never an older value, nothing only when no layer certainly holds it), no layer answers after remove/clear, validated reads return only bytes hashing to the key and drop detected corruption everywhere, and every call returns (a run that blocks is reported as a hang with its history). Also: validated reads asking for a content key the stored value does not hash to, put_with_validation_and_ttl, every layer probed right after remove/clear. One run in six (with a disk layer) reopens the cache once on the same directories.",
+    "Seeded search over histories of the full multi-layer API on 2-3 layers with a tiny first layer (eviction in almost every run), every promotion strategy, validation hooks on/off, interleaved with disk faults and clock advances; each read is judged against the latest put (never an older value, nothing only when no layer certainly holds it), no layer answers after remove/clear, validated reads return only bytes hashing to the key and drop detected corruption everywhere, and every call returns (a run that blocks is reported as a hang with its history). Also: validated reads asking for a content key the stored value does not hash to, put_with_validation_and_ttl, every layer probed right after remove/clear. One run in six (with a disk layer) reopens the cache once on the same directories. Calls naming a layer that does not exist, wrong-way promotions, empty batches and batches of 64.",
     "Trusted: the model's relaxations (possible eviction, tainted keys not judged on un-validated reads, deleted files may surface as I/O errors from single-layer reads), libc/tokio virtual clocks, the 4 s real-time watchdog for blocking deadlocks.",
     "3/C12",
 )
@@ -85,7 +85,7 @@ CHECKS["C12"] = (
 CHECKS["C11"] = (
     "exploration",
     "deterministic simulation of thread interleavings: real threads under a baton controller, seeded (random / PCT) choice of the next runner at every sched_point hook, Wing-Gong/Lowe linearizability search against the sequential cache specification, accounting check at quiescence",
-    "Seeded search over schedules of 2-3 tasks x 1-3 operations on one shared MemoryCache / DiskCache (1-2 keys, unique values, optional expired entry left by a sequential setup) or one shared DynamicContainer (write/read/query/remove on 1-2 encoding keys): every interleaving decision at the ~40 hook sites (between map operations, counter updates, temp-file open/write/fsync/rename, index update; for the container between archive write, index add and save, and inside the index temp-file protocol while the index lock is held through a try-lock wrapper) is drawn from the seed and recorded; histories stamped with a global sequence number are checked for linearizability, spurious errors, torn/foreign values, deadlock, and size()/usage against a probe of every key (container: a fresh instance on the same directory against the live one) once all tasks finished. In one run in six all puts of a key carry identical bytes.",
+    "Seeded search over schedules of 2-3 tasks x 1-3 operations on one shared MemoryCache / DiskCache (1-2 keys, unique values, optional expired entry left by a sequential setup) or one shared DynamicContainer (write/read/query/remove on 1-2 encoding keys): every interleaving decision at the ~40 hook sites (between map operations, counter updates, temp-file open/write/fsync/rename, index update; for the container between archive write, index add and save, and inside the index temp-file protocol while the index lock is held through a try-lock wrapper) is drawn from the seed and recorded; histories stamped with a global sequence number are checked for linearizability, spurious errors, torn/foreign values, deadlock, and size()/usage against a probe of every key (container: a fresh instance on the same directory against the live one) once all tasks finished. In one run in six all puts of a key carry identical bytes. Dotted key spellings, hashed sub-directories, and (a quarter of the disk runs) a setup performed by an earlier instance on the same directory.",
     "Trusted: the sequential specification (map with expired-but-present entries), the hook placement (interleavings are explored at hook granularity under sequential consistency; nothing inside a DashMap operation or a held std lock; no weak-memory effects); for the container the set specification (fixed content per key) and the rule that an Err is tolerated only for an operation overlapping a mutator of the same key.",
     "3/C11",
 )
@@ -93,7 +93,7 @@ CHECKS["C11"] = (
 CHECKS["C13"] = (
     "exploration",
     "deterministic simulation of the three-endpoint fail-over chain: real RibbitTactClient on an in-process simulated network (scripted endpoint behaviours, seeded TCP segmentation and latency, refused/reset/closed/stalled connections) under tokio's paused clock and the interposed libc clock; executable decision table + cache/TTL model + metamorphic re-runs over segmentations",
-    "Seeded search over assignments of behaviours to the three endpoints x endpoint classes x memory/disk protocol cache x TCP segmentations x scripts of query/advance/new-client/swap-behaviours: the request log must be the decision table's prefix of [https, http, tcp], the result Ok iff the stopping endpoint answered well-formed with exactly the document it served, good answers are served from cache with zero network events until the TTL and not after, failures are never cached, and the same script under other segmentations of the same TCP bytes gives identical outcomes. HTTP behaviours include every 5xx/4xx class, and a response whose body stream breaks or stalls after the status line (delivered as a genuine reqwest body error); hops can be disabled by configuration; the request actually sent and the rows returned (against the generated text, not the parser under test) are checked. One run in eight is a CDN run: the real CdnClient (download, download_archive_index) + ProtocolCache over the simulated HTTP transport with per-request behaviour queues, clock jumps around the configured TTLs and new clients on the same directory; a cached object costs no request before its TTL and one after, a failed or truncated download is never cached or returned as Ok, requests name the caller's object, bytes equal what was served. One disk-cache run in six has its cache files emptied or overwritten once (nothing usable is cached afterwards: the chain must be walked).",
+    "Seeded search over assignments of behaviours to the three endpoints x endpoint classes x memory/disk protocol cache x TCP segmentations x scripts of query/advance/new-client/swap-behaviours: the request log must be the decision table's prefix of [https, http, tcp], the result Ok iff the stopping endpoint answered well-formed with exactly the document it served, good answers are served from cache with zero network events until the TTL and not after, failures are never cached, and the same script under other segmentations of the same TCP bytes gives identical outcomes. HTTP behaviours include every 5xx/4xx class, and a response whose body stream breaks or stalls after the status line (delivered as a genuine reqwest body error); hops can be disabled by configuration; the request actually sent and the rows returned (against the generated text, not the parser under test) are checked. One run in eight is a CDN run: the real CdnClient (download, download_archive_index) + ProtocolCache over the simulated HTTP transport with per-request behaviour queues, clock jumps around the configured TTLs and new clients on the same directory; a cached object costs no request before its TTL and one after, a failed or truncated download is never cached or returned as Ok, requests name the caller's object, bytes equal what was served. One disk-cache run in six has its cache files emptied or overwritten once (nothing usable is cached afterwards: the chain must be walked). Documents up to 40 KiB, a 9000-byte value, a header line over 512 bytes, V1 MIME with a signature part, and (one run in four) a query for a second endpoint through the same client and cache.",
     "Trusted: the decision table written from the property text; the stubbed transport boundary (kernel TCP, TLS, hyper and reqwest's pool are not exercised; transport failures surface as ProtocolError::Network/Timeout); 10 ms clock-coupling granularity; queries within 10 s of a TTL boundary are not judged.",
     "3/C13",
 )
@@ -101,7 +101,7 @@ CHECKS["C13"] = (
 CHECKS["C15"] = (
     "exploration",
     "deterministic simulation of the real Ribbit server and the real clients on one simulated network: generated build databases, concurrent well-formed (TCP v1 MIME+checksum, TCP v2, HTTP via the real axum Router) and malformed/slow/never-terminated clients at seeded virtual times, seeded segmentation and latency, bounded-liveness probe",
-    "Seeded search over databases the server accepts x concurrent client mixes x segmentations: every row the project's own client parses must equal, field by typed field, the record with the chronologically newest build_time of the product; malformed requests must end in an error reply or a closed connection within 10 s + 1 s of virtual time; no task may panic; a fresh well-formed request sent after the last malformed client started must be answered correctly within 1 virtual second. Database strings include look-alikes of the wire framing and of the client's format sniffing; product names include spaces, non-ASCII, URL-special characters, dot segments and route words; 18 kinds of malformed request. One database in twenty has a long product name (200-4000 bytes; request line just below / at / above 1 KiB).",
+    "Seeded search over databases the server accepts x concurrent client mixes x segmentations: every row the project's own client parses must equal, field by typed field, the record with the chronologically newest build_time of the product; malformed requests must end in an error reply or a closed connection within 10 s + 1 s of virtual time; no task may panic; a fresh well-formed request sent after the last malformed client started must be answered correctly within 1 virtual second. Database strings include look-alikes of the wire framing and of the client's format sniffing; product names include spaces, non-ASCII, URL-special characters, dot segments and route words; 18 kinds of malformed request. One database in twenty has a long product name (200-4000 bytes; request line just below / at / above 1 KiB). Database shapes: dates across years, build numbers at 32-bit edges, twin product names, hundreds of builds or products, repeated record ids, shared timestamps, sparse JSON, several server CDN configurations.",
     "Trusted: the independent expectation model (response layout per region, RFC 3339 ordering), the stubbed transport boundary (no kernel TCP / hyper framing), product names restricted to request-safe characters.",
     "3/C15",
 )
